@@ -234,6 +234,22 @@ func locate(k kernel) (ast.Expr, error) {
 		return true
 	})
 	if k.trueMeansReturnsTrue && len(found) == 0 {
+		// the decision handed back directly: `return .., <expr>, ..` (possibly through a named local) where <expr> mentions what
+		// the kernel is about - same polarity as `if <expr> { return .., true }`
+		ast.Inspect(fd.Body, func(n ast.Node) bool {
+			if rs, ok := n.(*ast.ReturnStmt); ok {
+				for _, r := range rs.Results {
+					if t := text(r); t != "true" && t != "false" && (matches(t, k) || matches(expand(r), k)) {
+						if _, isCall := r.(*ast.CallExpr); !isCall {
+							found = append(found, r)
+						}
+					}
+				}
+			}
+			return true
+		})
+	}
+	if k.trueMeansReturnsTrue && len(found) == 0 {
 		// ctxSync-shaped functions: `if cond { return .., false }` followed by a final `return .., true` holds the negation
 		last := fd.Body.List[len(fd.Body.List)-1]
 		if rs, ok := last.(*ast.ReturnStmt); ok && len(rs.Results) > 0 && text(rs.Results[len(rs.Results)-1]) == "true" {
